@@ -6,6 +6,8 @@ of intervals K >= 1:  events = [0?] s0 e0 s1 e1 ... [size?],  values = [default?
 len(values) = len(events) - 1, first event 0, last event `size`.  With the denotation of npstructures' RunLengthArray
 (value t holds on [events[t], events[t+1]) - assumed, validated bounded) this is: dense(x) = v inside an interval, default
 in every gap, length = size.
+Also from_bedgraph (n >= 1 rows, with and without `size`): gap runs, leading and trailing zero runs, row i becomes run i + (gaps before i) + [start_0 != 0]
+(np.insert with index arrays: Skolem model validated by the engine self-check; the gap count is tied to np.flatnonzero by engine lemma L9).
 """
 import types
 import z3
@@ -14,7 +16,7 @@ from pyvc.verify import Contract
 
 ASSUMPTIONS = ["npstructures RunLengthArray(events, values, do_clean=True): run t has value values[t] on [events[t], events[t+1]); "
                "empty runs and equal neighbours are merged (validated bounded in rtc/enum_c09.py)"]
-NOT_PROVED = ["from_bedgraph (np.insert with index arrays), to_array (xor-accumulate), array-valued `values`, ufunc forwarding, reductions, "
+NOT_PROVED = ["to_array (xor-accumulate), from_bedgraph of an EMPTY table, array-valued `values` of from_intervals, ufunc forwarding, reductions, "
               "back-conversion to intervals/bedGraph, genome-wide concatenation: bounded"]
 
 
@@ -152,7 +154,7 @@ def _setup_bg(with_size):
 def _req_bg(ctx, st):
     from pyvc.core import PairForall
     ctx.assume(st.n >= 1)
-    M.prefix_monotone(st.G, st.gap01, st.n - 1)
+    M.prefix_monotone(st.G, st.gap01, st.n - 1, pairs=False)
     r = [Forall(lambda i: Implies(in_range(i, st.n), And(0 <= st.s(i), st.s(i) < st.e(i), Implies(i + 1 < st.n, st.e(i) <= st.s(i + 1)))), triggers=[st.s],
                 name="sorted, non-overlapping, non-empty rows"),
          Forall(lambda i: Implies(in_range(i, st.n), And(0 <= st.s(i), st.s(i) < st.e(i), Implies(i + 1 < st.n, st.e(i) <= st.s(i + 1)))), triggers=[st.e], name="same, on stop")]
@@ -204,7 +206,7 @@ def _hints_bg(ctx, st, ks):
 
 def _mk_bg(with_size):
     return Contract("C09.GenomicRunLengthArray.from_bedgraph[%s]" % ("size given" if with_size else "no size"), target=lambda: _G().from_bedgraph.__func__,
-                    setup=_setup_bg(with_size), requires=_req_bg, ensures=_ens_bg, hints=_hints_bg, timeout_ms=60000,
+                    setup=_setup_bg(with_size), requires=_req_bg, ensures=_ens_bg, hints=_hints_bg, timeout_ms=60000, rounds=2,
                     ghost=[("if len(missing_idx):", _ghost_bg)], raises={},
                     decorators={"@classmethod": "receiver is the class"},
                     canaries=[("gap run starts at the NEXT row's start", "np.insert(bedgraph.start, missing_idx+1, bedgraph.stop[missing_idx])", "np.insert(bedgraph.start, missing_idx+1, bedgraph.start[missing_idx+1])"),
